@@ -179,6 +179,16 @@ inductive XOp (α : Type) where
   | attr (i : Nat) (g : α → Ev α)
   /-- `s.__next__`: "Streams are iterable, not iterators" — AttributeError, nothing is read -/
   | nextAttr (i : Nat)
+  /-- `s.skip(n)` with a count that `int(round(n))` refuses (inf, nan, None, …): the call returns `self`; the
+      `skipper` generator evaluates `int(round(n))` at its first `next`, raises there and is finished — it
+      never touches `s._data` -/
+  | skipBad (i : Nat) (e : String)
+
+/-- `s.skip(n)` as written, any count: `int(round(n))` is evaluated lazily, inside the generator -/
+def xskipOf (i : Nat) (c : Cnt) : XOp α :=
+  match roundCount c with
+  | .ok n => .skip i n
+  | .error e => .skipBad i e
 
 def xteeOf (h : XHeap α) (parent : XIt α) : XHeap α × XIt α :=
   (h ++ [⟨parent, []⟩], .tee h.length 0)
@@ -237,6 +247,10 @@ def xstep (f : Nat) (st : XSt α) : XOp α → Option (XSt α × Obs α)
   | .nextAttr i =>
     match st.pool[i]? with
     | some (some _) => some (st, .err "AttributeError")
+    | _ => some (st, .err "noobj")
+  | .skipBad i e =>
+    match st.pool[i]? with
+    | some (some _) => some (⟨st.heap, st.pool.set i (some (.src [.error e]))⟩, .unit)
     | _ => some (st, .err "noobj")
 
 def xrun (f : Nat) : XSt α → List (XOp α) → List (Option (Obs α))
